@@ -176,6 +176,41 @@ class Opaque:
         return f"<opaque {self.tag}>"
 
 
+def _dict_super_table():
+    def setitem(interp, store):
+        def f(it, a, k, n, fi):
+            store[_hashable(a[0])] = a[1]
+        return f
+
+    def getitem(interp, store):
+        def f(it, a, k, n, fi):
+            if _hashable(a[0]) not in store:
+                raise SimRaise("KeyError", repr(a[0]), n, fi)
+            return store[_hashable(a[0])]
+        return f
+
+    def delitem(interp, store):
+        def f(it, a, k, n, fi):
+            if _hashable(a[0]) not in store:
+                raise SimRaise("KeyError", repr(a[0]), n, fi)
+            del store[_hashable(a[0])]
+        return f
+
+    def contains(interp, store):
+        return lambda it, a, k, n, fi: _hashable(a[0]) in store
+
+    def length(interp, store):
+        return lambda it, a, k, n, fi: Fraction(len(store))
+
+    def init(interp, store):
+        return lambda it, a, k, n, fi: None
+
+    def clear(interp, store):
+        return lambda it, a, k, n, fi: store.clear()
+    return {"__setitem__": setitem, "__getitem__": getitem, "__delitem__": delitem, "__contains__": contains,
+            "__len__": length, "__init__": init, "clear": clear}
+
+
 class _Return(Exception):
     def __init__(self, value):
         self.value = value
@@ -190,6 +225,7 @@ class _Continue(Exception):
 
 
 NUM = (int, Fraction, float)
+_DICT_SUPER = _dict_super_table()
 
 
 def is_num(x):
@@ -609,7 +645,26 @@ class Interp:
                 if isinstance(t, ast.Name):
                     env.pop(t.id, None)
                 elif isinstance(t, ast.Subscript):
-                    pass
+                    base = self.eval(t.value, env, fi)
+                    idx = self.eval_index(t.slice, env, fi)
+                    if isinstance(base, list):
+                        if isinstance(idx, slice):
+                            del base[slice(*(None if v is None else int(v) for v in (idx.start, idx.stop, idx.step)))]
+                        else:
+                            del base[int(idx)]
+                    elif isinstance(base, dict):
+                        if _hashable(idx) not in base:
+                            raise SimRaise("KeyError", repr(idx), s, fi)
+                        del base[_hashable(idx)]
+                    elif isinstance(base, Obj):
+                        m = self.model.lookup_method(base.cls, "__delitem__") if base.cls is not None else None
+                        store = self.dict_store(base)
+                        if m is not None:
+                            self.call_function(m, [base, idx], {}, s)
+                        elif store is not None:
+                            if _hashable(idx) not in store:
+                                raise SimRaise("KeyError", repr(idx), s, fi)
+                            del store[_hashable(idx)]
         elif isinstance(s, ast.Assert):
             try:
                 ok = self.truth(s.test, env, fi, allow_unknown=True)
@@ -675,7 +730,14 @@ class Interp:
             elif isinstance(obj, dict):
                 obj[_hashable(idx)] = value
             elif isinstance(obj, Obj):
-                obj.setitem_log.append((idx, value))
+                m = self.model.lookup_method(obj.cls, "__setitem__") if obj.cls is not None else None
+                store = self.dict_store(obj)
+                if m is not None:
+                    self.call_function(m, [obj, idx, value], {}, target)
+                elif store is not None:
+                    store[_hashable(idx)] = value
+                else:
+                    obj.setitem_log.append((idx, value))
             else:
                 raise self.err(f"subscript store on {obj!r}", target, fi)
         else:
@@ -952,7 +1014,18 @@ class Interp:
             m = self.model.lookup_method(container.cls, "__contains__")
             if m is not None:
                 return self.truth_value(self.call_function(m, [container, item], {}, node), node, fi)
+            store = self.dict_store(container)
+            if store is not None:
+                return _hashable(item) in store
         raise self.err(f"`in` on {container!r}", node, fi)
+
+    def dict_store(self, obj):
+        """Backing dictionary of an abstract object whose class derives from the builtin dict (created on first use)."""
+        if not isinstance(obj, Obj) or obj.cls is None or "dict" not in self.model.external_bases(obj.cls):
+            return None
+        if not hasattr(obj, "store"):
+            obj.store = {}
+        return obj.store
 
     def _e_Attribute(self, e, env, fi):
         base = self.eval(e.value, env, fi)
@@ -1012,6 +1085,9 @@ class Interp:
         if isinstance(base, SuperProxy):
             m = self.model.lookup_method(base.obj.cls, name, after=base.cls) if base.obj.cls is not None else None
             if m is None:
+                store = self.dict_store(base.obj)
+                if store is not None and name in _DICT_SUPER:
+                    return Intrinsic(f"super().{name}", _DICT_SUPER[name](self, store))
                 return Intrinsic(f"super().{name}", lambda it, a, k, n, f: None)
             return BoundMethod(m, base.obj)
         if isinstance(base, (Rat, Cat)) or is_num(base):
@@ -1050,6 +1126,12 @@ class Interp:
                 m = self.model.lookup_method(base.cls, "__getitem__")
                 if m is not None:
                     return self.call_function(m, [base, idx], {}, e)
+                store = self.dict_store(base)
+                if store is not None:
+                    k = _hashable(idx)
+                    if k not in store:
+                        raise SimRaise("KeyError", repr(k), e, fi)
+                    return store[k]
         if isinstance(base, Cat) and isinstance(idx, (int, slice)):
             return base.parts[idx] if isinstance(idx, int) else Cat(base.kind, base.parts[idx], base.dim)
         if isinstance(base, Rat):
@@ -1263,6 +1345,9 @@ def _i_len(it, args, kw, node, fi):
         m = it.model.lookup_method(x.cls, "__len__")
         if m is not None:
             return it.call_function(m, [x], {}, node)
+        store = it.dict_store(x)
+        if store is not None:
+            return Fraction(len(store))
     raise it.err(f"len() of {x!r}", node, fi)
 
 
